@@ -59,7 +59,19 @@ Arith(opk, w, sg, cur, v) ==
    "cas": the generated function returns  expected' * 2 + result.
    The CAS-loop increment and the spin-lock section return 0 in the generated code.   *)
 Sem(opk, w, sg, cur, v, e) ==
-  CASE opk = "xchg" -> [mem |-> Canon(w, v), ret |-> AsLong(w, sg, cur)]
+  CASE opk = "casx" ->
+         (* compare-exchange whose `expected` is itself a shared object: the state is the pair
+            [m |-> atomic object, x |-> expected object].  e = 0: the producer,
+            atomic_compare_exchange_strong(&obj, &xobj, v) - on success obj := v and xobj is NOT
+            written (C11 7.17.7.4: expected is updated only on failure); on failure xobj := obj.
+            e # 0: the consumer - if it sees obj = e (the producer's new value: the hand-off has
+            happened) it takes over xobj and stores v there.                                    *)
+         IF e = 0
+         THEN IF cur.m = cur.x THEN [mem |-> [m |-> Canon(w, v), x |-> cur.x], ret |-> 1]
+              ELSE [mem |-> [m |-> cur.m, x |-> cur.m], ret |-> 0]
+         ELSE IF cur.m = Canon(w, e) THEN [mem |-> [m |-> cur.m, x |-> Canon(w, v)], ret |-> 1]
+              ELSE [mem |-> cur, ret |-> 0]
+    [] opk = "xchg" -> [mem |-> Canon(w, v), ret |-> AsLong(w, sg, cur)]
     [] opk = "cas"  -> IF cur = Canon(w, e)
                        THEN [mem |-> Canon(w, v), ret |-> AsLong(w, sg, Canon(w, e)) * 2 + 1]
                        ELSE [mem |-> cur,         ret |-> AsLong(w, sg, cur) * 2]
